@@ -324,6 +324,108 @@ theorem inv_opImportFfi (s : State) (i : Nat) (dsts : List Nat) (h : Inv s) : In
     · exact h
   · exact h
 
+/-- new bytes / capacity for the live region behind slot `i`; the reservation follows -/
+theorem inv_recap {s : State} (h : Inv s) {i r : Nat} {sl : Slot} {reg : Region} (hi : s.slots[i]? = some sl)
+    (hsr : sl.region? = some r) (hr : s.regions[r]? = some reg) (bytes : List Nat) (cap' : Nat) :
+    Inv (recap s r reg bytes cap') := by
+  obtain ⟨reg0, hr0, hpos, hnrel⟩ := live_of_slot h hi hsr
+  rw [hr] at hr0; cases hr0
+  have hle := claimed_le_pool h hr
+  refine inv_updRegion (reg' := { reg with bytes := bytes, cap := cap', claimed := reg.claimed.map (fun _ => cap') }) h hr rfl rfl rfl ?_ rfl rfl rfl rfl ?_ ?_
+  · intro q
+    show poolAdjust s.pool reg.claimPool (reg.claimed.getD 0) ((reg.claimed.map (fun _ => cap')).getD 0) q + reg.claimIn q = s.pool q + _
+    unfold poolAdjust Region.claimIn
+    by_cases e : q = reg.claimPool
+    · subst e; simp; omega
+    · have e2 : ¬ (reg.claimPool = q) := fun x => e x.symm
+      simp [e, e2]
+  · intro hx; simp [hnrel] at hx
+  · intro c hc
+    show c = cap'
+    have hc' : reg.claimed.map (fun _ => cap') = some c := hc
+    cases hcl : reg.claimed with
+    | none => simp [hcl] at hc'
+    | some x => simp [hcl] at hc'; exact hc'.symm
+
+theorem inv_opAllocGen (s : State) (d len cap align seed : Nat) (asMut zeroed : Bool) (h : Inv s) :
+    Inv (opAllocGen s d len cap align seed asMut zeroed).1 := by
+  unfold opAllocGen; split
+  · exact inv_allocStd _ _ _ _ _ _ h
+  · exact h
+
+theorem inv_opResize (s : State) (i n val : Nat) (h : Inv s) : Inv (opResize s i n val).1 := by
+  unfold opResize; split
+  · split
+    · exact inv_opExtend _ _ _ _ h
+    · exact inv_opTruncate _ _ _ h
+  · exact h
+
+theorem inv_shrinkTo (s : State) (i : Nat) (hd : Handle) (reg : Region) (desired : Nat) (hd' : Handle) (h : Inv s)
+    (hi : s.slots[i]? = some (.buf hd)) (hr : s.regions[hd.region]? = some reg) (hreg : hd'.region = hd.region) :
+    Inv (shrinkTo s i hd reg desired hd').1 := by
+  unfold shrinkTo; split
+  · have h1 := inv_recap h hi rfl hr (reg.bytes.take desired) desired
+    exact inv_retag (s := recap s hd.region reg _ _) h1 hi rfl rfl rfl rfl (by simp [Slot.region?, hreg]) (fun _ => rfl)
+      (by intro r l e; cases e)
+  · exact h
+
+theorem inv_opShrinkBuf (s : State) (i : Nat) (h : Inv s) : Inv (opShrinkBuf s i).1 := by
+  unfold opShrinkBuf; split
+  · rename_i hd hi
+    split
+    · rename_i reg hr
+      split
+      · exact inv_shrinkTo _ _ _ _ _ _ h hi hr rfl
+      · exact inv_shrinkTo _ _ _ _ _ _ h hi hr rfl
+    · exact h
+  · exact h
+
+theorem inv_opShrinkMut (s : State) (i : Nat) (h : Inv s) : Inv (opShrinkMut s i).1 := by
+  unfold opShrinkMut; split
+  · rename_i r l hi
+    split
+    · rename_i reg hr
+      simp only
+      split
+      · exact inv_recap h hi rfl hr _ _
+      · exact h
+    · exact h
+  · exact h
+
+theorem inv_opRoundTrip (s : State) (srcs : List Nat) (h : Inv s) : Inv (opRoundTrip s srcs).1 := by
+  unfold opRoundTrip; split
+  · split <;> exact h
+  · exact h
+
+theorem inv_opBinaryMut (s : State) (i j : Nat) (h : Inv s) : Inv (opBinaryMut s i j).1 := by
+  unfold opBinaryMut; split
+  · split
+    · split
+      · split
+        · exact inv_allocStd _ _ _ _ _ _ (inv_dropSlot _ _ h)
+        · exact h
+      · exact h
+    · exact h
+  · exact h
+
+theorem inv_um2Finish (s1 : State) (v n delta : Nat) (hv : Handle) (okn : Bool) (validity : List Nat)
+    (h : Inv s1) : Inv (um2Finish s1 v n delta hv okn validity).1 := by
+  unfold um2Finish; split
+  · split
+    · exact inv_allocStd _ _ _ _ _ _ (inv_dropSlot _ _ (inv_allocStd _ _ _ _ _ _ (inv_dropSlot _ _ h)))
+    · exact inv_allocStd _ _ _ _ _ _ (inv_dropSlot _ _ h)
+  · exact h
+
+theorem inv_opUnaryMut2 (s : State) (v n delta : Nat) (h : Inv s) : Inv (opUnaryMut2 s v n delta).1 := by
+  unfold opUnaryMut2; split
+  · split
+    · apply inv_um2Finish
+      split
+      · exact inv_dropSlot _ _ h
+      · exact h
+    · exact h
+  · exact h
+
 /-- **every operation preserves the invariant** -/
 theorem step_inv (s : State) (op : Op) (h : Inv s) : Inv (step s op).1 := by
   cases op with
@@ -345,6 +447,13 @@ theorem step_inv (s : State) (op : Op) (h : Inv s) : Inv (step s op).1 := by
   | exportFfi srcs d => exact inv_opExportFfi s srcs d h
   | importFfi i dsts => exact inv_opImportFfi s i dsts h
   | unaryMut i delta => exact inv_opUnaryMut s i delta h
+  | allocGen d len cap align seed asMut zeroed => exact inv_opAllocGen s d len cap align seed asMut zeroed h
+  | resize i n val => exact inv_opResize s i n val h
+  | shrinkBuf i => exact inv_opShrinkBuf s i h
+  | shrinkMut i => exact inv_opShrinkMut s i h
+  | roundTrip srcs => exact inv_opRoundTrip s srcs h
+  | binaryMut i j => exact inv_opBinaryMut s i j h
+  | unaryMut2 v n delta => exact inv_opUnaryMut2 s v n delta h
 
 theorem inv_init (n : Nat) : Inv (init n) := by
   refine ⟨?_, ?_, ?_, ?_, fun _ => rfl, ?_⟩
